@@ -41,6 +41,7 @@ type Graph struct {
 	Fset   *token.FileSet
 	Defers []*ast.DeferStmt
 	depth  int
+	labelOnly int
 	Threaded int // join blocks duplicated for an entering edge that decides their nil test (prune.go)
 	Pruned int // conditional edges removed because they contradict the known nil-ness of a local (prune.go)
 }
@@ -202,8 +203,14 @@ func (g *Graph) split(b *Block, c ast.Expr, t, f *Block) {
 		// a bool local that names a condition once and for all (`hasIO := ev&mask != 0 … if !hasIO && …`):
 		// the edges are labelled with the condition it stands for
 		if def := g.stableBoolDef(x); def != nil && g.depth < 4 {
+			// the edges are labelled with the condition; the node evaluated here is still just the variable
+			if g.labelOnly == 0 {
+				b.Nodes = append(b.Nodes, x)
+			}
 			g.depth++
+			g.labelOnly++
 			g.split(b, def, t, f)
+			g.labelOnly--
 			g.depth--
 			return
 		}
@@ -226,7 +233,19 @@ func (g *Graph) split(b *Block, c ast.Expr, t, f *Block) {
 			return
 		}
 	}
-	b.Nodes = append(b.Nodes, c)
+	if g.labelOnly == 0 {
+		b.Nodes = append(b.Nodes, c)
+	}
+	// normal form: the constant (or nil) operand of a comparison stands on the right
+	if x, ok := c.(*ast.BinaryExpr); ok {
+		if flipped, isCmp := flipCmp[x.Op]; isCmp && g.isConstOperand(x.X) && !g.isConstOperand(x.Y) {
+			sw := &ast.BinaryExpr{X: x.Y, OpPos: x.OpPos, Op: flipped, Y: x.X}
+			if tv, ok := g.Info.Types[x]; ok {
+				g.Info.Types[sw] = tv
+			}
+			c = sw
+		}
+	}
 	if x, ok := c.(*ast.BinaryExpr); ok && x.Op == token.NEQ {
 		// normal form: `a != b` labels its edges as `a == b` with the senses swapped, so that rules
 		// written for one spelling of a test see the other one as well
@@ -521,12 +540,10 @@ func (g *Graph) stableBoolDef(id *ast.Ident) ast.Expr {
 	ast.Inspect(def, func(x ast.Node) bool {
 		switch y := x.(type) {
 		case *ast.CallExpr:
-			if fid, ok := y.Fun.(*ast.Ident); ok {
-				if _, builtin := g.Info.Uses[fid].(*types.Builtin); builtin {
-					return true
-				}
-			}
-			okk = false
+			// a call is evaluated once, where the local is defined; the edges of the later test are only
+			// labelled with the comparison (label-only, see split), so the call is not taken to happen again.
+			// What it returned is a fact that does not age – unlike a field read; its operands are not inspected.
+			return false
 		case *ast.Ident:
 			if w, ok := g.Info.Uses[y].(*types.Var); ok && !w.IsField() && w.Pkg() != nil && w.Parent() != w.Pkg().Scope() {
 				if m, _, b := count(w); m > 1 || b {
@@ -554,4 +571,14 @@ func (g *Graph) stableBoolDef(id *ast.Ident) ast.Expr {
 func identOfExpr(e ast.Expr) *ast.Ident {
 	id, _ := ast.Unparen(e).(*ast.Ident)
 	return id
+}
+
+var flipCmp = map[token.Token]token.Token{token.EQL: token.EQL, token.NEQ: token.NEQ, token.LSS: token.GTR, token.GTR: token.LSS, token.LEQ: token.GEQ, token.GEQ: token.LEQ}
+
+func (g *Graph) isConstOperand(e ast.Expr) bool {
+	if IsNil(g.Info, e) {
+		return true
+	}
+	tv, ok := g.Info.Types[ast.Unparen(e)]
+	return ok && tv.Value != nil
 }
